@@ -82,11 +82,30 @@ func (s *State) DumpState() {
 	s.cache.DumpState()
 }
 
+func isTombstone(value []byte) bool {
+	return bytes.Equal(value, []byte(TOMBSTONE))
+}
+
+// cachedValue reads the block cache without metering gas
+func (s *State) cachedValue(key StoreKey) ([]byte, error) {
+	switch c := s.cache.(type) {
+	case *GasStore:
+		return c.SessionedDirectStorage.Get(key)
+	case *NoGasStore:
+		return c.SessionedDirectStorage.Get(key)
+	}
+	return s.cache.Get(key)
+}
+
 func (s *State) Get(key StoreKey) ([]byte, error) {
 	if s.txSession != nil {
 		// Get the txSession first
 		result, err := s.txSession.Get(key)
 		if err == nil {
+			// a key deleted in this session reads as absent
+			if isTombstone(result) {
+				return nil, nil
+			}
 			// if got result, return directly
 			return result, err
 		}
@@ -95,6 +114,10 @@ func (s *State) Get(key StoreKey) ([]byte, error) {
 	// Get the cache first
 	result, err := s.cache.Get(key)
 	if err == nil {
+		// a key deleted in this block reads as absent
+		if isTombstone(result) {
+			return nil, nil
+		}
 		// if got result, return directly
 		return result, err
 	}
@@ -118,7 +141,9 @@ func (s *State) Exists(key StoreKey) bool {
 		// check existence in txSession
 		exist := s.txSession.Exists(key)
 		if exist {
-			return exist
+			// the session holds either a value or the mark of a deletion
+			value, _ := s.txSession.Get(key)
+			return !isTombstone(value)
 		}
 	}
 
@@ -129,7 +154,9 @@ func (s *State) Exists(key StoreKey) bool {
 		return s.cs.Exists(key)
 	}
 
-	return exist
+	// the cache holds either a value or the mark of a deletion
+	value, _ := s.cachedValue(key)
+	return !isTombstone(value)
 }
 
 func (s *State) Delete(key StoreKey) (bool, error) {
@@ -157,7 +184,8 @@ func (s *State) Iterate(fn func(key []byte, value []byte) bool) (stopped bool) {
 
 	for _, key := range keys {
 		value, err := s.Get(key)
-		if err != nil {
+		if err != nil || value == nil {
+			// nil: the key was deleted in this block or session
 			continue
 		}
 		stop := fn(key, value)
@@ -177,7 +205,8 @@ func (s *State) IterateRange(start, end []byte, ascending bool, fn func(key, val
 	//todo: we can't get the key for anything that's only in the cache,
 	for _, key := range keys {
 		value, err := s.Get(key)
-		if err != nil {
+		if err != nil || value == nil {
+			// nil: the key was deleted in this block or session
 			continue
 		}
 		stop := fn(key, value)
